@@ -81,6 +81,8 @@ def run(tier):
                 why = "writing the message into a slice one byte too short must fail with BufferTooSmall, got %s" % o.get("short_err")
             elif o["direct"] != o["bytes"]:
                 why = "the handshake-level and message-level serializers disagree"
+            elif "per_fn" in o and o["per_fn"] != o["bytes"]:
+                why = "the public per-message serializer (gen_tls_clienthello / _serverhello / _finished / ...) and gen_tls_message emit different bytes for the same value"
             elif kind in ("record", "from_bytes") and o["hdr"]["len"] != len(o["bytes"]) - 5:
                 why = "record length field %s for %s payload bytes" % (o["hdr"]["len"], len(o["bytes"]) - 5)
             if why is None and c["ser"] and o["bytes"] != c["ser"]:
